@@ -24,7 +24,7 @@ PROPS = {
             'the value formulas of sexagesimal literals (hh:mm:ss vs degrees) are only constrained to carry a unit; completeness (every text the reference accepts is accepted) is not stated, only soundness of accepted results',
             'that ordinary float literals evaluate to the same value with the option on and off (needs f64::from_str semantics); the dispatch in parse_scalars::parse_yaml12_float; the deserialize_f32/f64 entry points',
         ],
-        assumptions=['float operations, casts and f64::from_str are opaque (contracts/robotics.shim.rs); UTF-8 self-synchronisation axiom (contracts/crop.spec.rs)',
+        assumptions=['float operations, casts and f64::from_str are opaque (contracts/robotics.shim.rs)',
                      'the optional feature is not built by the baseline suite; the text is extracted with cfg(feature = "robotics") evaluated to true'],
     ),
     'C07': dict(
@@ -155,7 +155,7 @@ PROPS = {
                      'crop_window_text (render-time crop with span rebasing), Snippet::fmt_or_fallback, annotate-snippets rendering; reflected keys, formatter messages, miette; ring_reader trimming'],
         assumptions=['String::into_bytes / from_utf8 shims (contracts/snippet.shim.rs)',
                      'str slicing / find / strip / char_indices / chars().count() shims (contracts/crop.shim.rs): slicing panics exactly when an end is not a char boundary or the range is inverted',
-                     'UTF-8 self-synchronisation (an ASCII byte of a valid encoding is a whole character) is ASSUMED, not proved (axiom_ascii_byte_is_a_char); a str has at most isize::MAX bytes'],
+                     'a str has at most isize::MAX bytes (assumed allocation invariant); UTF-8 self-synchronisation (an ASCII byte of a valid encoding is a whole character) is PROVED from vstd\'s definition of encode_utf8 (lemma_ascii_byte_char)'],
     ),
     'C05': dict(
         covered=[
@@ -182,7 +182,7 @@ PROPS = {
                      'observed and NOT detected by any contract here: block-scalar indentation indicators in nested positions (reported by an independent reviewer while seeding C12); the trailing-blank observation of the same reviewer became F12 (detected by unit plain, fixed)'],
         assumptions=['fmt::Write is an append-only sink (contracts/quoting.shim.rs); write! with {:02X}/{:04X} prints upper-case hex; char::is_control is category Cc',
                      'std str operations of the predicates behave as their shims say (contracts/plain.shim.rs); that plain_reads_back is SUFFICIENT for a YAML reader is not proved (no reader semantics) - it is the list of necessary conditions of the YAML spec',
-                     'UTF-8 self-synchronisation axiom (contracts/crop.spec.rs)'],
+                     ],
     ),
     'C20': dict(
         covered=[
